@@ -323,3 +323,17 @@ Proof. vm_compute. repeat split. Qed.
 Example ex_node_content :
   In (mkX 0 [(Greek 961, 2); (Alpha 1, 1)] (Some (HVector [202; 254]%N))) (export_doc ex_a).
 Proof. vm_compute. left. reflexivity. Qed.
+
+(** ** the hypothesis on distinct labels holds in every invariant state *)
+
+From Sodg Require Import Wf.
+
+Theorem C18_canonical_invariant_states :
+  forall n g1 g2,
+  Inv n g1 -> same_content g1 g2 -> op_to_xml g1 = op_to_xml g2 /\ op_to_dot g1 = op_to_dot g2.
+Proof. exact invariant_export_canonical. Qed.
+
+Check C18_canonical_invariant_states :
+  forall n g1 g2,
+  Inv n g1 -> same_content g1 g2 -> op_to_xml g1 = op_to_xml g2 /\ op_to_dot g1 = op_to_dot g2.
+Print Assumptions C18_canonical_invariant_states.
